@@ -1,78 +1,26 @@
-"""Pristine-process server for history-sensitive table checks (C15).
+"""Pristine-process server for history-sensitive checks (C15 tables, C10 fresh twins).
 
-Started once per shard as a fresh interpreter: imports the library's table modules but calls nothing.  For every request
-line (a JSON list of calls) it forks; the child performs the calls in order on library state no earlier case has touched,
-prints one JSON line with the answers and exits.  So every generated call history starts from the state of a fresh
-process, and a replayed history sees exactly what the generated one saw."""
+usage: python -m harness.zygote <module>
+
+Started once per shard as a fresh interpreter: imports <module> (which must not *call* the library at import time) and
+reports the size of the library's process-wide caches, which must be zero.  For every request line (JSON) it forks; the child
+calls <module>.zygote_entry(request) on library state that no earlier case has touched, prints one JSON line and exits.
+So every request is answered from the state of a fresh process, and a replayed case sees exactly what the generated one saw."""
+import importlib
 import json
 import os
 import sys
 
-import harness.compat  # noqa: F401
-from inscripta.biocantor.gene.cds_frame import CDSFrame, CDSPhase
-from inscripta.biocantor.gene.codon import Codon, TranslationTable
-from inscripta.biocantor.location.strand import Strand
-from inscripta.biocantor.sequence.alphabet import Alphabet
-from inscripta.biocantor.sequence.sequence import Sequence
 
-
-def call(c):
-    op = c[0]
-    if op == "syn":
-        return sorted(str(x) for x in Codon(c[1]).synonymous_codons(include_self=c[2]))
-    if op == "translate":
-        return Codon(c[1]).translate(strict=c[2])
-    if op == "stop":
-        return Codon(c[1]).is_stop_codon
-    if op == "strict":
-        return Codon(c[1]).is_strict_codon
-    if op == "canon":
-        return Codon(c[1]).is_canonical_start_codon
-    if op == "start":
-        return Codon(c[1]).is_start_codon_in_specific_translation_table(TranslationTable[c[2]])
-    if op == "str":
-        x = Codon(c[1])
-        return [str(x), x.value, x.name]
-    if op == "shift":
-        return CDSFrame[c[1]].shift(c[2]).name
-    if op == "to_phase":
-        return CDSFrame[c[1]].to_phase().name
-    if op == "to_frame":
-        return CDSPhase[c[1]].to_frame().name
-    if op == "phase_gff":
-        return CDSPhase[c[1]].to_gff()
-    if op == "rel":
-        return Strand[c[1]].relative_to(Strand[c[2]]).name
-    if op == "rev":
-        return Strand[c[1]].reverse().name
-    if op == "symbol":
-        return Strand.from_symbol(c[1]).name
-    if op == "revcomp":
-        return str(Sequence(c[1], Alphabet[c[2]]).reverse_complement())
-    if op == "sweep_syn":  # the whole partition, asked after the history
-        out = {}
-        for a in "ACGT":
-            for b in "ACGT":
-                for d in "ACGT":
-                    k = a + b + d
-                    out[k] = [sorted(str(x) for x in Codon(k).synonymous_codons(include_self=True)),
-                              sorted(str(x) for x in Codon(k).synonymous_codons(include_self=False)),
-                              Codon(k).translate(), Codon(k).is_stop_codon]
-        return out
-    raise ValueError("unknown op %r" % (op,))
-
-
-def run(calls):
-    out = []
-    for c in calls:
-        try:
-            out.append({"v": call(c)})
-        except Exception as e:  # the caller decides what a raised call means
-            out.append({"exc": type(e).__name__, "msg": str(e)[:120]})
-    return out
+def cache_sizes():
+    from inscripta.biocantor.parent import parent as pm
+    return [pm.Parent.cache_info().currsize, pm._unique_value_or_none.cache_info().currsize]
 
 
 def main():
+    mod = importlib.import_module(sys.argv[1])
+    sys.stdout.write(json.dumps({"ready": True, "caches": cache_sizes()}) + "\n")
+    sys.stdout.flush()
     for line in sys.stdin:
         line = line.strip()
         if not line:
@@ -82,7 +30,7 @@ def main():
         if pid == 0:
             os.close(r)
             try:
-                res = json.dumps(run(json.loads(line)))
+                res = json.dumps(mod.zygote_entry(json.loads(line)), default=repr)
             except Exception as e:
                 res = json.dumps({"error": repr(e)[:300]})
             with os.fdopen(w, "w") as fh:
@@ -94,6 +42,37 @@ def main():
         os.waitpid(pid, 0)
         sys.stdout.write((res or json.dumps({"error": "child died"})) + "\n")
         sys.stdout.flush()
+
+
+class Client:
+    """one zygote per (process, module); restarted if it died"""
+
+    def __init__(self, module):
+        self.module = module
+        self.proc = None
+
+    def _start(self):
+        import subprocess
+        from harness.core import VERIF_DIR, REPO_DIR
+        env = dict(os.environ, PYTHONPATH=os.pathsep.join([VERIF_DIR, REPO_DIR, os.path.join(VERIF_DIR, ".deps")]))
+        self.proc = subprocess.Popen([sys.executable, "-W", "ignore", "-m", "harness.zygote", self.module], stdin=subprocess.PIPE, stdout=subprocess.PIPE,
+                                     env=env, cwd=VERIF_DIR, text=True, bufsize=1)
+        hello = json.loads(self.proc.stdout.readline() or "{}")
+        if not hello.get("ready") or any(hello.get("caches", [1])):
+            raise RuntimeError("zygote for %s is not pristine: %r" % (self.module, hello))
+
+    def ask(self, request):
+        if self.proc is None or self.proc.poll() is not None:
+            self._start()
+        self.proc.stdin.write(json.dumps(request) + "\n")
+        self.proc.stdin.flush()
+        line = self.proc.stdout.readline()
+        if not line:
+            raise RuntimeError("zygote for %s died" % self.module)
+        out = json.loads(line)
+        if isinstance(out, dict) and "error" in out:
+            raise RuntimeError("zygote %s: %s" % (self.module, out["error"]))
+        return out
 
 
 if __name__ == "__main__":
